@@ -408,3 +408,6 @@ def required_labels(tier):
 
 
 KNOWN_PREDICATES = {}
+
+
+RULE = RULE + " " + ('Further sub-checks: run-time exclusion (element.skip() in a before-hook), hooks that read element statuses, step texts bound per step type (passing @given / failing @then / no @when definition of one text), and behave.contrib.scenario_autoretry (outlines patched as a whole or row by row): the verdict is that of the final attempts.')
